@@ -36,7 +36,17 @@ def gen_operators(rng, spec, n=None, p_constraints=0.35, allow_prod=True):
     for i in range(n):
         name = OPNAMES[i]
         r = rng.random()
-        if r < 0.12:
+        if r < 0.1 and allow_prod:
+            # one variable in co-, contra- and mixed-variance parameter contexts (two-sided bounds, variable-to-variable binds)
+            x = ('v', 0)
+            k1, k2 = base(), base()
+            palette = [x, fun(k1, x), fun(x, k1), fun(x, k2), fun(x, x)]
+            if comps:
+                c = rng.choice(comps)
+                palette.append((c, tuple(x if j == 0 else k1 for j in range(spec.arity(c)))))
+            ps = [rng.choice(palette) for _ in range(rng.randint(2, 3))]
+            s = {"nvars": 1, "nwild": 0, "body": fun(*ps, rng.choice([x, k2])), "constraints": []}
+        elif r < 0.12:
             s = {"nvars": 0, "nwild": 0, "body": conc(1), "constraints": []}          # constant
         elif r < 0.38:
             k = rng.randint(1, 3)
